@@ -71,6 +71,9 @@ func gAst(a *Ast) string {
 		return fmt.Sprintf("ATernary %s %s %s", gACond(a.Cond), gBytes([]byte(a.Then[0].Path)), gBytes([]byte(a.Else[0].Path)))
 	case "if":
 		return fmt.Sprintf("AIf %s %s %s %s", gACond(a.Cond), gAsts(a.Then), gAsts(a.Else), gBool(a.HasElse))
+	case "ifok":
+		return fmt.Sprintf("AIfOK %s %s %s %s %s %s %s %s", gBytes([]byte(a.CtxVar)), gBytes([]byte(a.CtxOK)), gBytes([]byte(a.CtxSrc)), gBool(a.CtxLit), gBool(a.Neg),
+			gAsts(a.Then), gAsts(a.Else), gBool(a.HasElse))
 	case "switch":
 		var cs []string
 		for i := range a.Cases {
